@@ -225,8 +225,13 @@ package httpserver
 //@   requires [len2] len(key) >= 2
 //@   requires [first] key[0] == '{'
 //@   requires [last] key[len(key)-1] == '}'
+//@   // the representation invariant its own proof (unit peer_input_sweep) relies on, demanded at the call site
+//@   requires [live_request] r != nil && r.request != nil && r.request.URL != nil && r.request.Header != nil
+//@   requires [recorder_and_body_buffer] (r.responseRecorder != nil ==> r.responseRecorder.ResponseWriterWrapper != nil) && r.requestBody != nil
 //@ func (*replacer).Replace
 //@   requires r != nil
+//@   requires [live_request] r.request != nil && r.request.URL != nil && r.request.Header != nil
+//@   requires [recorder_and_body_buffer] (r.responseRecorder != nil ==> r.responseRecorder.ResponseWriterWrapper != nil) && r.requestBody != nil
 //@   at call unescapeBraces#1 assert [h_first] s[idxStart] == '{'
 //@   at call unescapeBraces#1 assert [h_last] s[idxEnd] == '}'
 //@   loop 1 invariant [single_pass] len(s) <= len(old(s)) && s == old(s)[len(old(s)) - len(s):]
@@ -252,6 +257,7 @@ package httpserver
 
 //@ spec redirSource(site *SiteConfig) *SiteConfig
 //@ func redirPlaintextHost
+//@   requires [source_has_tls_config] cfg != nil && cfg.TLS != nil
 //@   ensures result != nil && redirSource(result) == cfg
 
 //@ define srcOK(c *SiteConfig) bool = c != nil && c.TLS != nil && c.TLS.Enabled && !c.TLS.NoRedirect
